@@ -636,6 +636,7 @@ func writeEvidence(prop, tier string, seed int64, t summary, distinct, violation
 //
 //	bbsim selftest passthrough   the library's own test-suite, instrumented by the same pass, must pass
 //	                             with the shims delegating to the real primitives (no simulation active)
+//	bbsim selftest shims         unit tests of the sync/time stubs against the documented semantics (under many seeds)
 //	bbsim selftest determinism   every harness: the same seeds give identical trace hashes in separate
 //	                             processes at GOMAXPROCS 1, 4 and 16
 func cmdSelftest(args []string) int {
@@ -647,6 +648,17 @@ func cmdSelftest(args []string) int {
 		return selftestPassthrough()
 	case "determinism":
 		return selftestDeterminism(args[1:])
+	case "shims":
+		// the stubs against the documented semantics of the primitives they replace, under the simulator
+		cmd := exec.Command(goBin, "test", "-count=1", "./shim/...", "./simrt/...")
+		cmd.Dir = verifDir
+		cmd.Env = goEnv()
+		out, err := cmd.CombinedOutput()
+		fmt.Print(string(out))
+		if err != nil {
+			return 1
+		}
+		return 0
 	}
 	die(2, "unknown selftest %q", args[0])
 	return 2
